@@ -74,11 +74,12 @@ type Contract struct {
 	MayPanic   map[int]bool
 	Ghosts     []GhostUpdate
 	ElemFacts  []ElemFact
-	Inline     bool     // callee is inlined at call sites instead of using the contract
-	Effect     bool     // the callee has an externally visible effect (file write, truncate, ...)
-	EffectReqs []Clause // obligations at every call to an effectful callee
-	Implements []string // keys of interface-method contracts whose ensures this method must satisfy
-	GhostInit  []string // results whose type invariant is established by choice of their fresh ghost state
+	Inline     bool        // callee is inlined at call sites instead of using the contract
+	Wraps      [][2]string // (result, arg): the result reads / writes through arg (calls its methods)
+	Effect     bool        // the callee has an externally visible effect (file write, truncate, ...)
+	EffectReqs []Clause    // obligations at every call to an effectful callee
+	Implements []string    // keys of interface-method contracts whose ensures this method must satisfy
+	GhostInit  []string    // results whose type invariant is established by choice of their fresh ghost state
 	Closures   map[int]*Contract
 	Notes      []string
 	Lines      int
@@ -392,6 +393,11 @@ func parseContractText(lines []string, file string, pkgPath string, voc *Vocab) 
 			cur.ElemFacts = append(cur.ElemFacts, ElemFact{Slice: m[1], Idx: m[2], Val: m[3], X: x})
 		case "effect":
 			cur.Effect = true
+		case "wraps":
+			f := strings.Fields(rest)
+			if len(f) == 2 {
+				cur.Wraps = append(cur.Wraps, [2]string{f[0], f[1]})
+			}
 		case "effects":
 			// effects require label: expr
 			c, err := parseClause(strings.TrimSpace(strings.TrimPrefix(rest, "require")), file, lineNo)
